@@ -728,7 +728,7 @@ def _rules(tier):
     from . import carry, c04
     from . import precision
     from . import c07
-    return [rule_core, rule_self, rule_index, rule_order, rule_once, rule_memorder, rule_tie, rule_start, c07.rule_edge, c07.rule_unit,
+    return [rule_core, rule_self, rule_index, rule_order, rule_once, rule_memorder, rule_tie, rule_start, c07.rule_edge, c07.rule_unit, c07.rule_conserve, c07.rule_memorder,
             carry.make_clone_rule("R-C08-clone", {"linfa_clustering", "linfa_nn"}, 10), carry.make_setter_rule("R-C08-override", {"linfa_clustering"}, 10), c04.make_carry_rule("R-C08-carry", {"DbscanParams", "OpticsParams"}, 6),
             precision.make_rule("R-C08-precision", lambda f: f["d"]["krate"] == "linfa_clustering" and any(x in f["d"]["path"] + " " + (f["d"].get("self_adt") or "") for x in ("dbscan", "optics", "Dbscan", "Optics")), 30, "linfa-clustering dbscan / optics"), rule_dedup,
             carry.make_accessor_rule("R-C08-accessor", {"linfa_clustering", "linfa_nn"}, 10), carry.make_ctor_rule("R-C08-ctor", {"linfa_clustering", "linfa_nn"}, 4), rule_seedarms, c07.rule_dispatch]
